@@ -2,7 +2,7 @@
 single `random.Random` passed in, so a case replays from (seed, index)."""
 from __future__ import annotations
 
-from recipes import ANY, B, N, NARY, OPS, U, GLOBAL_FIELDS, TXN_FIELDS, Program, Sub, Var, gen_u
+from recipes import ANY, B, N, NARY, OPS, U, GLOBAL_FIELDS, ITXN_FIELDS, MAYBE, TXN_FIELDS, Program, Sub, Var, gen_u
 
 
 RISKY = {"Minus", "Div", "Mod", "Exp", "Mul2", "ShiftLeft", "ShiftRight", "GetBitU", "GetBitB", "GetByte", "BytesMinus",
@@ -13,7 +13,7 @@ RISKY = {"Minus", "Div", "Mod", "Exp", "Mul2", "ShiftLeft", "ShiftRight", "GetBi
 class Cfg:
     def __init__(self, mode="app", version=10, max_depth=4, max_stmts=5, subs=0, effects=True, loops=True,
                  exits=True, dyn=False, wide=False, notes=False, breaks=True, byref=True, req_slots=True, recursive=False,
-                 call_bias=0.0, control_in_operand=False, byref_p=0.2):
+                 call_bias=0.0, control_in_operand=False, byref_p=0.2, itxn=True, maybe=True):
         self.__dict__.update(locals())
         del self.__dict__["self"]
 
@@ -33,6 +33,7 @@ class G:
         self.counters = set()
         self.stats = {}
         self.operand = 0
+        self.mvars: list[Var] = []
 
     def note(self, k):
         self.stats[k] = self.stats.get(k, 0) + 1
@@ -219,6 +220,27 @@ class G:
                 return ("op", "GlobalPutB", [key, self.expr(B, d)])
             self.note("gdel")
             return ("op", "GlobalDel", [key])
+        if c < 0.41 and cfg.effects and cfg.mode == "app" and cfg.version >= 5 and cfg.itxn:
+            self.note("itxn")
+            ntx = 1 if (cfg.version < 6 or r.random() < 0.7) else 2
+            group = []
+            for _ in range(ntx):
+                fs = [("TypeEnum", ("int", r.choice([1, 4])))]
+                for f in r.sample([k for k in ITXN_FIELDS if k != "TypeEnum"], r.choice([1, 2, 3])):
+                    fs.append((f, self.expr(ITXN_FIELDS[f][1], max(0, d - 1))))
+                group.append(fs)
+            return ("itxn", group)
+        if c < 0.43 and cfg.mode == "app" and cfg.maybe and self.operand == 0:
+            kind = r.choice(sorted(MAYBE))
+            ctor, teal, imms, argt, vty, minv = MAYBE[kind]
+            if minv <= cfg.version:
+                self.note("maybe")
+                args = [self.expr(t, max(0, d - 1)) if t == U else ("bytes", r.choice([b"k0", b"k1", b"zz"])) for t in argt]
+                val_v, ok_v = Var(U if vty == ANY else vty), Var(U)
+                self.mvars += [val_v, ok_v]
+                use = ("op", "PopU", [("nary", "Add", [("load", ok_v), ("int", 1)])]) if vty == ANY else \
+                      ("op", "PopU", [("nary", "Add", [("load", ok_v), ("load", val_v)])])
+                return ("maybe", kind, args, val_v, ok_v, use)
         if c < 0.45:
             self.note("assert")
             k = r.choice([1, 1, 2, 3])
@@ -371,7 +393,7 @@ class G:
             last = self.expr(U, cfg.max_depth - 1)
         init = [("store", v, ("int", 0) if v.ttype == U else ("bytes", b"")) for v in self.pre_init.get(None, [])]
         main = ("seq", init + body + [last])
-        return Program(cfg.mode, main, self.vars, self.subs, self.dvars)
+        return Program(cfg.mode, main, self.vars, self.subs, self.dvars, self.mvars)
 
 
 def required_version(n) -> int:
